@@ -540,7 +540,8 @@ ShapeE(n) ==
   THEN [m |-> [pd |-> Par("_pd", DTi, FALSE, Null, NoLim, <<>>, "none") @@ [initvia |-> "value"],
                pe |-> Par("_pe", DTe, FALSE, Null, NoLim, <<>>, "none") @@ [initvia |-> "bare"]]]
   ELSE [m |-> [pg |-> Par("_pg", DTs, FALSE, Null, NoLim, <<>>, "none") @@ [initvia |-> "cfgvalue"],
-               pi |-> Par("_pi", DTf5, FALSE, Null, NoLim, <<>>, "none") @@ [cls |-> [hi |-> 8], via |-> "subclass"]]]
+               pi |-> Par("_pi", DTf5, FALSE, Null, NoLim, <<>>, "none") @@ [cls |-> [hi |-> 8], via |-> "subclass", redecl |-> "datatype"],
+               pj |-> Par("_pj", DTf5, FALSE, Null, NoLim, <<>>, "none") @@ [cls |-> [hi |-> 8], via |-> "subclass", redecl |-> "props"]]]
 (* K: a constant of a datatype whose transported form is not the internal one *)
 ShapeK(d) == [m |-> [pa |-> Par("_pa", DTi, FALSE, Null, NoLim, <<>>, "none"),
                      pk |-> Par("_pk", DTname[d], TRUE, OtherOf(DTname[d]), NoLim, <<>>, "none")]]
